@@ -183,12 +183,12 @@ class Grid(col.MutableSequence):
         elif isinstance(key, numbers.Number):
             return self._row[key]
         else:
-            if not self._index:
+            if self._index is None:
                 self.reindex()
             return self._index[str(key)]
 
     def get(self, index, default=None):
-        if not self._index:
+        if self._index is None:
             self.reindex()
         return self._index.get(str(index), default)
 
@@ -206,19 +206,18 @@ class Grid(col.MutableSequence):
             raise TypeError('value must be a dict')
         for val in value.values():
             self._detect_or_validate(val)
-        if "id" in self._row[index]:
-            self._index.pop(self._row[index]['id'], None)
         self._row[index] = value
-        if "id" in value:
-            self._index[str(value["id"])] = value
+        # The row that was replaced may have been indexed (under the string
+        # form of its id), and another row may carry the same id: rebuild.
+        self.reindex()
 
     def __delitem__(self, index):
         '''
         Delete the row at index.
         '''
-        if "id" in self._row[index]:
-            self._index.pop(self._row[index]['id'], None)
         del self._row[index]
+        # Works for slices too, and for ids that are not strings.
+        self.reindex()
 
     def insert(self, index, value):
         '''
@@ -230,9 +229,10 @@ class Grid(col.MutableSequence):
             self._detect_or_validate(val)
         self._row.insert(index, value)
         if "id" in value:
-            if not self._index:
+            if self._index is None:
                 self.reindex()
-            self._index[str(value["id"])] = value
+            else:
+                self._index[str(value["id"])] = value
 
     def reindex(self):
         '''
@@ -247,9 +247,7 @@ class Grid(col.MutableSequence):
     def extend(self, values):
         super(Grid, self).extend(values)  # Python 2 compatible :-(
         # super().extend(values)  # Python 3+ :-)
-        for item in self._row:
-            if "id" in item:
-                self._index[str(item["id"])] = item
+        self.reindex()
 
     def filter(self, filter, limit=0):
         '''
